@@ -953,14 +953,27 @@ func (s *Session) runOutputOncePacket() {
 // them in the receive buffer and receive queue.
 func (s *Session) input(seg *segment) error {
 	protocol := seg.Protocol()
+	validDirection := true
 	if s.isClient {
 		if protocol != openSessionResponse && protocol != dataServerToClient && protocol != dataServerToClientLowEntropy && protocol != ackServerToClient && protocol != closeSessionRequest && protocol != closeSessionResponse {
-			return stderror.ErrInvalidArgument
+			validDirection = false
 		}
 	} else {
 		if protocol != openSessionRequest && protocol != dataClientToServer && protocol != dataClientToServerLowEntropy && protocol != ackClientToServer && protocol != closeSessionRequest && protocol != closeSessionResponse {
-			return stderror.ErrInvalidArgument
+			validDirection = false
 		}
+	}
+	if !validDirection {
+		if s.transportProtocol == common.PacketTransport {
+			// A datagram can be reflected or replayed to its sender by anyone on
+			// the path, and it authenticates because both directions share one
+			// key. Discard it as if it was lost instead of closing the session.
+			if log.IsLevelEnabled(log.TraceLevel) {
+				log.Tracef("%v dropped %v because it travels in the wrong direction", s, seg)
+			}
+			return nil
+		}
+		return stderror.ErrInvalidArgument
 	}
 
 	if seg.block != nil {
